@@ -504,7 +504,25 @@ fn seed_family(kind: usize, i: u64, base: u64) -> u64 {
 
 const FAMILY_NAMES: [&str; 5] = ["sequential", "offset", "scrambled", "timestamp_like", "strided"];
 
+/// element types of different sizes for the shuffle census (an implementation may treat wide, narrow, zero-cost-to-move
+/// and heap-owning elements differently)
+const ELEM_TYPES: [&str; 5] = ["u8", "u64", "[u64; 16]", "[u8; 65]", "String"];
+
 fn run_shuffle_census(n: usize, kind: usize, seeds: u64, base: u64, report: &mut Report) {
+    run_shuffle_census_t::<u8>(n, kind, seeds, base, 0, report, |i| i, |e| *e)
+}
+
+fn run_shuffle_census_elem(elem: usize, n: usize, kind: usize, seeds: u64, base: u64, report: &mut Report) {
+    match elem {
+        0 => run_shuffle_census_t::<u8>(n, kind, seeds, base, 0, report, |i| i, |e| *e),
+        1 => run_shuffle_census_t::<u64>(n, kind, seeds, base, 1, report, |i| i as u64 * 0x0101_0101_0101_0101, |e| *e as u8),
+        2 => run_shuffle_census_t::<[u64; 16]>(n, kind, seeds, base, 2, report, |i| [i as u64; 16], |e| e[15] as u8),
+        3 => run_shuffle_census_t::<[u8; 65]>(n, kind, seeds, base, 3, report, |i| [i; 65], |e| e[64]),
+        _ => run_shuffle_census_t::<String>(n, kind, seeds, base, 4, report, |i| format!("element number {}", i), |e| e.rsplit(' ').next().unwrap().parse().unwrap()),
+    }
+}
+
+fn run_shuffle_census_t<E: Clone>(n: usize, kind: usize, seeds: u64, base: u64, elem: usize, report: &mut Report, make: fn(u8) -> E, key: fn(&E) -> u8) {
     let nf = factorial(n);
     let mut counts = vec![0u64; nf];
     report.inc("evaluations");
@@ -512,8 +530,9 @@ fn run_shuffle_census(n: usize, kind: usize, seeds: u64, base: u64, report: &mut
     let r = catch(|| {
         for i in 0..seeds {
             let mut g = Rng::from_seed(seed_family(kind, i, base));
-            let mut v: Vec<u8> = (0..n as u8).collect();
-            lib!(g.shuffle(&mut v));
+            let mut ve: Vec<E> = (0..n as u8).map(make).collect();
+            lib!(g.shuffle(&mut ve));
+            let v: Vec<u8> = ve.iter().map(key).collect();
             let mut sorted = v.clone();
             sorted.sort();
             if sorted != (0..n as u8).collect::<Vec<u8>>() {
@@ -523,7 +542,8 @@ fn run_shuffle_census(n: usize, kind: usize, seeds: u64, base: u64, report: &mut
         }
         Ok(())
     });
-    let replay = vec!["--mode".into(), "streams".into(), "--case".into(), format!("shuffle:{}:{}:{}:{}", n, kind, seeds, base)];
+    let replay = vec!["--mode".into(), "streams".into(), "--case".into(), format!("shuffle:{}:{}:{}:{}:{}", n, kind, seeds, base, elem)];
+    report.see_str("shuffle_element_types", ELEM_TYPES[elem]);
     match r {
         Err(p) => {
             if p.in_lib {
@@ -548,6 +568,7 @@ fn run_shuffle_census(n: usize, kind: usize, seeds: u64, base: u64, report: &mut
                     Json::obj()
                         .set("what", "some rearrangements of a short slice are never produced by any of the seeds tried")
                         .set("n", n)
+                        .set("element_type", ELEM_TYPES[elem])
                         .set("seed_family", FAMILY_NAMES[kind])
                         .set("seeds", seeds)
                         .set("reached", reached)
@@ -560,6 +581,7 @@ fn run_shuffle_census(n: usize, kind: usize, seeds: u64, base: u64, report: &mut
                     Json::obj()
                         .set("what", "the frequencies of the rearrangements over the seeds are far from equal (chi-square above the 1-1e-12 quantile)")
                         .set("n", n)
+                        .set("element_type", ELEM_TYPES[elem])
                         .set("seed_family", FAMILY_NAMES[kind])
                         .set("seeds", seeds)
                         .set("chi2", chi2)
@@ -652,15 +674,67 @@ fn run_serial(len: u64, seed0: u64, draws: usize, report: &mut Report) {
     }
 }
 
+/// Seeds that drive the generator's internal state through degenerate values (0, 1, all ones, single bits, ...) within its
+/// first steps. They are computed by inverting the step state' = A*state + C (mod 2^64) with the constants of the crate's
+/// `Rng` alias; the model (state = seed, output = state ^ (state >> 32)) is first compared with the real generator on
+/// random seeds, and the family is skipped (recorded as not applicable) if it does not describe it.
+fn special_state_seeds(report: &mut Report) -> Vec<u64> {
+    const A: u64 = 6364136223846793005;
+    const C: u64 = 1442695040888963407;
+    let mut hr = HRng::new(0x5eed);
+    let model_ok = (0..64).all(|_| {
+        let s0 = hr.next_u64();
+        let mut g = Rng::from_seed(s0);
+        let mut st = s0;
+        (0..4).all(|_| {
+            st = st.wrapping_mul(A).wrapping_add(C);
+            lib!(g.next_raw()) == st ^ (st >> 32)
+        })
+    });
+    if !model_ok {
+        report.extra("special_state_seeds", "not applicable: the generator is not the modelled 64-bit LCG");
+        return Vec::new();
+    }
+    // inverse of A modulo 2^64 (Newton iteration)
+    let mut inv: u64 = A;
+    for _ in 0..6 {
+        inv = inv.wrapping_mul(2u64.wrapping_sub(A.wrapping_mul(inv)));
+    }
+    assert_eq!(A.wrapping_mul(inv), 1);
+    let mut targets: Vec<u64> = vec![0, 1, 2, u64::MAX, u64::MAX - 1, C, A, C.wrapping_neg(), A.wrapping_neg(), 0xFFFF_FFFF, 0x1_0000_0000, 0xFFFF_FFFF_0000_0000];
+    for b in 0..64 {
+        targets.push(1u64 << b);
+        targets.push((1u64 << b).wrapping_sub(1));
+    }
+    let mut out = Vec::new();
+    for &t in &targets {
+        let mut st = t;
+        out.push(st); // the state is the target before the first step
+        for _ in 0..4 {
+            st = st.wrapping_sub(C).wrapping_mul(inv); // one step back
+            out.push(st);
+        }
+    }
+    out.sort_unstable();
+    out.dedup();
+    report.count("special_state_seeds", out.len() as u64);
+    out
+}
+
 fn run_determinism(seed: u64, thorough: bool, report: &mut Report) {
     let mut hr = HRng::new(mix(&[seed, 19]));
     let nseeds = if thorough { 20_000 } else { 2_000 };
     let ndraws = if thorough { 2_000 } else { 500 };
-    for i in 0..nseeds {
-        let s = match i % 4 {
-            0 => i as u64,
-            1 => u64::MAX - i as u64,
-            _ => hr.next_u64(),
+    let special = special_state_seeds(report);
+    for i in 0..nseeds + special.len() {
+        let s = if i >= nseeds {
+            special[i - nseeds]
+        } else {
+            match i % 4 {
+                0 => i as u64,
+                1 => u64::MAX - i as u64,
+                _ => hr.next_u64(),
+            }
         };
         report.inc("evaluations");
         report.see("nontrivial", mix(&[20, s]));
@@ -764,7 +838,7 @@ fn main() {
             if let Some(c) = a.opt("case") {
                 let p: Vec<&str> = c.split(':').collect();
                 match p[0] {
-                    "shuffle" => run_shuffle_census(p[1].parse().unwrap(), p[2].parse().unwrap(), p[3].parse().unwrap(), p[4].parse().unwrap(), &mut report),
+                    "shuffle" => run_shuffle_census_elem(p.get(5).map(|x| x.parse().unwrap()).unwrap_or(0), p[1].parse().unwrap(), p[2].parse().unwrap(), p[3].parse().unwrap(), p[4].parse().unwrap(), &mut report),
                     "serial" => run_serial(p[1].parse().unwrap(), p[2].parse().unwrap(), p[3].parse().unwrap(), &mut report),
                     _ => run_determinism(seed, false, &mut report),
                 }
@@ -780,6 +854,12 @@ fn main() {
                     tasks.push((0, n, kind, hr.next_u64()));
                 }
             }
+            // the same census for other element types (kind field = 100 * element type + seed family)
+            for elem in 1..ELEM_TYPES.len() as u64 {
+                for n in 2..=5u64 {
+                    tasks.push((0, n, 100 * elem + (n + elem) % 5, hr.next_u64()));
+                }
+            }
             for &len in &[2u64, 3, 4, 5, 8, 16, 256] {
                 for k in 0..(if thorough { 40 } else { 8 }) {
                     let s0 = if k == 0 { 42 } else if k == 1 { 0 } else { hr.next_u64() };
@@ -792,7 +872,9 @@ fn main() {
                 rep.sample_cap = 24;
                 while let Some(i) = q.take() {
                     let t = tasks[i as usize];
-                    if t.0 == 0 {
+                    if t.0 == 0 && t.2 >= 100 {
+                        run_shuffle_census_elem((t.2 / 100) as usize, t.1 as usize, (t.2 % 100) as usize, seeds_per_census / 2, t.3, rep);
+                    } else if t.0 == 0 {
                         run_shuffle_census(t.1 as usize, t.2 as usize, seeds_per_census, t.3, rep);
                     } else {
                         run_serial(t.1, t.2, t.3 as usize, rep);
